@@ -206,8 +206,15 @@ def relayout(a, layout):
         out = np.ascontiguousarray(a[::-1])[::-1]
     else:
         raise HarnessError(f"unknown layout {layout}")
-    assert out.shape == a.shape and out.dtype == a.dtype
+    assert out.shape == a.shape and out.dtype.name == a.dtype.name
     return out
+
+
+def big_endian(a):
+    """The same array in non-native byte order (as read from FITS / HDF5 / network buffers): same values, same dtype name."""
+    if a.dtype.itemsize == 1 or a.dtype.kind not in "iufU":
+        return a
+    return a.astype(a.dtype.newbyteorder(">"))
 
 
 class CoqLock:
